@@ -111,9 +111,7 @@ data_t Vector::norm(index_t p)
     for (index_t i = 0; i < size(); i++)
     {
         val = values[i];
-        // skip negligible entries only: a NaN entry must make the norm NaN
-        if (!(fabs(val) <= zero_tol))
-            result += pow(val, p);
+        result += pow(val, p);
     }
     return pow(result, 1.0/p);
 }
